@@ -1,6 +1,8 @@
 package main
 
 import (
+	"strings"
+	"time"
 	"crypto/sha256"
 	"encoding/hex"
 	"fmt"
@@ -8,6 +10,7 @@ import (
 	"verif/harness/hx"
 
 	simapp "github.com/KiraCore/sekai/app"
+	govtypes "github.com/KiraCore/sekai/x/gov/types"
 	recoverykeeper "github.com/KiraCore/sekai/x/recovery/keeper"
 	recoverytypes "github.com/KiraCore/sekai/x/recovery/types"
 	"github.com/KiraCore/sekai/x/slashing"
@@ -54,7 +57,7 @@ func (x *hist) rotate(v, v2 int) {
 
 // genesis: staking + slashing ExportGenesis of the current state, then InitChain of a FRESH application
 // with that genesis; the history continues on the new application
-func (x *hist) genesis() {
+func (x *hist) genesis(over map[int]sinfo) {
 	if x.dead {
 		return
 	}
@@ -62,6 +65,27 @@ func (x *hist) genesis() {
 	ctx := x.blockCtx()
 	stExp := staking.ExportGenesis(ctx, w.sk)
 	slExp := slashing.ExportGenesis(ctx, w.slk)
+	// signing infos edited in the genesis file before the import
+	var overCoq []string
+	for _, k := range sortedKeysS(over) {
+		ca := sdk.ConsAddress(w.keys[k].Address()).String()
+		o := over[k]
+		found := false
+		for i := range slExp.SigningInfos {
+			if slExp.SigningInfos[i].Address == ca {
+				in := &slExp.SigningInfos[i].ValidatorSigningInfo
+				in.StartHeight, in.InactiveUntil = o.Start, time.Unix(o.Until, 0).UTC()
+				in.MischanceConfidence, in.Mischance, in.LastPresentBlock = o.Conf, o.Misch, o.Last
+				in.MissedBlocksCounter, in.ProducedBlocksCounter = o.Missed, o.Produced
+				found = true
+			}
+		}
+		if !found {
+			panic("genesis edit of a signing info that is not exported")
+		}
+		overCoq = append(overCoq, hx.Pair(hx.Z(int64(k)), o.coq()))
+	}
+	opCoq := "OGenesis " + hx.List(overCoq)
 	app2 := simapp.NewInitApp(log.NewNopLogger(), cometbftdb.NewMemDB(), nil, true, map[int64]bool{}, simapp.DefaultNodeHome, 5,
 		simapp.MakeEncodingConfig(), simtestutil.EmptyAppOptions{})
 	gs := simapp.GenesisStateWithValSet(app2)
@@ -77,7 +101,7 @@ func (x *hist) genesis() {
 	})
 	if p != "" {
 		x.dead = true
-		x.steps = append(x.steps, hx.Pair("OGenesis", obsCoq("RPanic", x.prev, x.prev, "(Some ([], false, []))")))
+		x.steps = append(x.steps, hx.Pair(opCoq, obsCoq("RPanic", x.prev, x.prev, "(Some ([], false, []))")))
 		if len(p) > 160 {
 			p = p[:160]
 		}
@@ -91,7 +115,7 @@ func (x *hist) genesis() {
 	x.w = &w2
 	c, _ := hx.Ctx(app2, x.h, x.t).CacheContext()
 	x.ctx = c
-	setProps(app2, c, configs[x.cfg])
+	setProps(app2, c, x.cur)
 	var ju [][2]int64
 	for _, u := range resp.Validators {
 		pk, err := tmtypesPub(u)
@@ -125,8 +149,57 @@ func (x *hist) genesis() {
 	}
 	sp := x.setPairs()
 	eb := fmt.Sprintf("(Some (%s, %s, %s))", pairs(ju), hx.B(applied), pairs(sp))
-	x.record("OGenesis", jop{Op: "genesis-import", Updates: ju, Applied: &applied, ConsErr: consErr, ConsSet: sp}, "ROk", eb)
+	x.record(opCoq, jop{Op: "genesis-import", Note: strings.Join(overCoq, " "), Updates: ju, Applied: &applied, ConsErr: consErr, ConsSet: sp}, "ROk", eb)
 	if !x.dead && !x.consistent() {
 		x.dead = true
 	}
+}
+
+var propEnum = []govtypes.NetworkProperty{govtypes.MischanceConfidence, govtypes.MaxMischance, govtypes.MischanceRankDecreaseAmount,
+	govtypes.DowntimeInactiveDuration, govtypes.UnjailMaxTime}
+var propNames = []string{"MischanceConfidence", "MaxMischance", "MischanceRankDecreaseAmount", "DowntimeInactiveDuration", "UnjailMaxTime"}
+
+// setProp: a passed SetNetworkProperty proposal, applied through the real gov proposal router
+func (x *hist) setProp(which int, value uint64) {
+	if x.dead {
+		return
+	}
+	gk := appOf(x.w).CustomGovKeeper
+	content := &govtypes.SetNetworkPropertyProposal{NetworkProperty: propEnum[which], Value: govtypes.NetworkPropertyValue{Value: value}}
+	x.propSeq++
+	var err error
+	p := hx.Try(func() { err = gk.GetProposalRouter().ApplyProposal(x.blockCtx(), uint64(1000+x.propSeq), content, sdk.ZeroDec()) })
+	if p != "" {
+		panic("SetNetworkProperty proposal panicked: " + p)
+	}
+	accepted := err == nil
+	if accepted {
+		switch which {
+		case 0:
+			x.cur.MC = value
+		case 1:
+			x.cur.MaxM = value
+		case 2:
+			x.cur.RankDec = value
+		case 3:
+			x.cur.Downtime = value
+		case 4:
+			x.cur.Unjail = value
+		}
+	}
+	// the settings the code will read are the ones the model is told about
+	pr := gk.GetNetworkProperties(x.blockCtx())
+	if pr.MischanceConfidence != x.cur.MC || pr.MaxMischance != x.cur.MaxM || pr.MischanceRankDecreaseAmount != x.cur.RankDec ||
+		pr.DowntimeInactiveDuration != x.cur.Downtime || pr.UnjailMaxTime != x.cur.Unjail {
+		panic("network properties differ from the tracked settings")
+	}
+	e := ""
+	if err != nil {
+		e = err.Error()
+	}
+	res := "ROk"
+	if !accepted {
+		res = "RRej"
+	}
+	x.record(fmt.Sprintf("OSetProp %d %d %s", which, value, hx.B(accepted)), jop{Op: "set-property", Note: fmt.Sprintf("%s=%d", propNames[which], value), Err: e}, res, "")
 }
